@@ -184,6 +184,10 @@ type pstate struct {
 	nvars  int
 	nnames int
 	steps  int
+	budget int    // zzverif.Budget: step count at which the stated work bound is exceeded (0 = none)
+	budgetLabel string
+	budgetStart int
+	budgetSite  string
 	depth  int
 	symIDs map[*symS]int
 	ulid   int
@@ -623,6 +627,14 @@ func (st *pstate) replaying() bool { return len(st.log) < len(st.prefix) }
 // step accounting (unwinding assertion)
 func (st *pstate) tick(fr *frame) {
 	st.steps++
+	if st.budget > 0 && st.steps > st.budget {
+		label := st.budgetLabel
+		st.budget = 0
+		if !st.replaying() {
+			st.reportAssert(label, st.budgetSite, true)
+		}
+		panic(engineAbort{"assert-failed", label})
+	}
 	if st.steps > st.ex.Cfg.MaxSteps {
 		panic(engineAbort{"unwind", "instruction budget exceeded in " + fr.fn.String()})
 	}
